@@ -327,10 +327,14 @@ class ObjectTemplate(base.HyperValue, utils.Formattable):
             f'Value is missing from input. Path=\'{path}\'.')
       if (isinstance(template_value, base.HyperValue)
           and (not self._where or self._where(template_value))):
+        # NOTE: `path` starts at the root path of this template, the parsed
+        # primitives are located relative to the template value.
+        relative_path = str(path - self._root_path)
         children.append(
-            parsed_primitives.get(str(path), template_value).encode(input_value)
+            parsed_primitives.get(
+                relative_path, template_value).encode(input_value)
         )
-        child_paths.append(str(path))
+        child_paths.append(relative_path)
       elif isinstance(template_value, derived.DerivedValue):
         if self._compute_derived:
           referenced_values = [
